@@ -93,6 +93,22 @@ def _negative(test: ast.expr) -> ast.expr | None:
         return test.operand
     if isinstance(test, ast.Compare) and len(test.ops) == 1 and isinstance(test.ops[0], ast.NotIn):
         return ast.copy_location(ast.Compare(left=test.left, ops=[ast.In()], comparators=test.comparators), test)
+    if isinstance(test, ast.BoolOp) and len(test.values) >= 2:
+        # De Morgan: a disjunction / conjunction whose EVERY operand is syntactically negative (`not X`, `not in`, `is not`, `!=`)
+        pos = [_negative_operand(v) for v in test.values]
+        if all(p is not None for p in pos):
+            op = ast.And() if isinstance(test.op, ast.Or) else ast.Or()
+            return ast.copy_location(ast.BoolOp(op=op, values=pos), test)
+    return None
+
+
+def _negative_operand(test: ast.expr) -> ast.expr | None:
+    simple = _negative(test) if not isinstance(test, ast.BoolOp) else None
+    if simple is not None:
+        return simple
+    if isinstance(test, ast.Compare) and len(test.ops) == 1 and isinstance(test.ops[0], (ast.IsNot, ast.NotEq)):
+        op = ast.Is() if isinstance(test.ops[0], ast.IsNot) else ast.Eq()
+        return ast.copy_location(ast.Compare(left=test.left, ops=[op], comparators=test.comparators), test)
     return None
 
 
@@ -131,6 +147,8 @@ def _guard_clauses(block: list[ast.stmt], tail: bool, in_loop: bool, loop_tail: 
     i = 0
     if loop_tail and block and isinstance(block[-1], ast.Continue):
         block = block[:-1] or [ast.copy_location(ast.Pass(), block[-1])]
+    if tail and len(block) > 1 and _bare_return(block[-1]):
+        block = block[:-1]          # falling off the end of the function and a bare `return` are the same thing
     while i < len(block):
         st = block[i]
         rest = block[i + 1:]
